@@ -1,1 +1,24 @@
-fn main(){}
+//! vnet: sync-level monitors (C04 C05 C09 C11 C17, sync parts of C02 C03 C07 C08 C20).
+mod c04;
+mod loopback;
+mod sched;
+mod world;
+
+#[global_allocator]
+static ALLOC: vkit::alloc::Counting = vkit::alloc::Counting;
+
+fn main() {
+    let args = vkit::Args::parse();
+    let prop = args.check[..3.min(args.check.len())].to_uppercase();
+    let mut rep = vkit::Reporter::new(&prop, args.out.clone());
+    let rt = tokio::runtime::Builder::new_multi_thread().worker_threads(2).enable_all().build().unwrap();
+    match args.check.as_str() {
+        "c04" => rt.block_on(c04::run(&args, &mut rep, "C04")),
+        "c05" => rt.block_on(c04::run(&args, &mut rep, "C05")),
+        other => {
+            eprintln!("vnet: unknown check {}", other);
+            std::process::exit(2);
+        }
+    }
+    rep.finish();
+}
